@@ -113,6 +113,15 @@ func c02refRefRootOf(origin int64, content map[string]string) []byte {
 	return c02refRefRoot(origin, "", kvs)
 }
 
+// c02val: the value stored at a path; short paths (which end up as values on branches) carry the
+// separator byte of the node encoding
+func c02val(path string) string {
+	if len(path) <= 2 {
+		return "fee:100:zcn"
+	}
+	return "v"
+}
+
 func TestGocvBoundedC02(t *testing.T) {
 	cases := 0
 	paths := []string{"3456", "3457", "9", "a34567", "a34568", "a9", "b0", "12", "1234", "1256", "1", "1abc", "2def"}
@@ -143,7 +152,7 @@ func TestGocvBoundedC02(t *testing.T) {
 					if o.del {
 						_, _ = tr.Delete(Path(o.path))
 					} else {
-						_, _ = tr.Insert(Path(o.path), &SecureSerializableValue{Buffer: []byte("v")})
+						_, _ = tr.Insert(Path(o.path), &SecureSerializableValue{Buffer: []byte(c02val(o.path))})
 					}
 				}
 				var keys []string
@@ -153,16 +162,36 @@ func TestGocvBoundedC02(t *testing.T) {
 				sort.Strings(keys)
 				direct := c02btrie()
 				for _, k := range keys {
-					_, _ = direct.Insert(Path(k), &SecureSerializableValue{Buffer: []byte("v")})
+					_, _ = direct.Insert(Path(k), &SecureSerializableValue{Buffer: []byte(c02val(k))})
 				}
 				if len(keys) > 0 {
 					content := map[string]string{}
 					for _, k := range keys {
-						content[k] = "v"
+						content[k] = c02val(k)
 					}
 					if want := c02refRefRootOf(1, content); !bytes.Equal(tr.GetRoot(), want) {
 						if fails < 3 {
 							fmt.Printf("GOCV-FAIL root differs from the independent computation of the published node-hash format: %v gives root %x, independent computation for %v gives %x\n", seq, tr.GetRoot(), keys, want)
+						}
+						fails++
+					}
+				}
+				// different content, different root: the same paths with one value changed after its first separator byte
+				if len(keys) > 0 {
+					other := c02btrie()
+					for i, k := range keys {
+						v := c02val(k)
+						if i == 0 {
+							v = v + ":changed"
+							if len(k) <= 2 {
+								v = "fee:200:zcn"
+							}
+						}
+						_, _ = other.Insert(Path(k), &SecureSerializableValue{Buffer: []byte(v)})
+					}
+					if string(other.GetRoot()) == string(tr.GetRoot()) {
+						if fails < 3 {
+							fmt.Printf("GOCV-FAIL two tries with different content have the same root %x: %v, and the same with the value at %q changed\n", tr.GetRoot(), keys, keys[0])
 						}
 						fails++
 					}
@@ -201,5 +230,5 @@ func TestGocvBoundedC02(t *testing.T) {
 	if fails > 0 {
 		t.Fail()
 	}
-	fmt.Printf("GOCV-BOUNDED cases=%d failures=%d scope=\"all histories of <= 4 inserts/deletes over %v: root equals the root of the trie built directly from the final content and the independent re-computation of the published node-hash format\"\n", cases, fails, paths)
+	fmt.Printf("GOCV-BOUNDED cases=%d failures=%d scope=\"values: fee:100:zcn (with the separator byte) at paths of <= 2 characters, v elsewhere; two tries differing in one value must differ in root; all histories of <= 4 inserts/deletes over %v: root equals the root of the trie built directly from the final content and the independent re-computation of the published node-hash format\"\n", cases, fails, paths)
 }
